@@ -160,9 +160,57 @@ func polyOfSpec(n int, s string) []fr.Element {
 	return polyOfSpecFresh(n, s)
 }
 
+// guards: every polynomial is the front part of a larger allocation (spare capacity, as when a caller keeps
+// several polynomials in one flat array); the elements behind it must never change
+type guardT struct {
+	arena []fr.Element
+	n     int
+}
+
+var (
+	guardMu sync.Mutex
+	guards  []guardT
+)
+
+const guardLen = 6
+
+func guardValue(i int) fr.Element {
+	var e fr.Element
+	e.SetUint64(uint64(0xC0FFEE00 + i))
+	return e
+}
+
+// checkGuards reports (and forgets) the guard regions registered since the last call
+func checkGuards() string {
+	guardMu.Lock()
+	defer guardMu.Unlock()
+	bad := false
+	for _, g := range guards {
+		for i := 0; i < guardLen; i++ {
+			if g.arena[g.n+i] != guardValue(i) {
+				bad = true
+			}
+		}
+	}
+	guards = guards[:0]
+	if bad {
+		return " MUTATED-BEYOND-INPUT"
+	}
+	return ""
+}
+
 func polyOfSpecFresh(n int, s string) []fr.Element {
 	parts := strings.Split(s, ":")
-	out := make([]fr.Element, n)
+	arena := make([]fr.Element, n+guardLen)
+	for i := 0; i < guardLen; i++ {
+		arena[n+i] = guardValue(i)
+	}
+	out := arena[:n] // len n, cap n+guardLen
+	if !shareInputs {
+		guardMu.Lock()
+		guards = append(guards, guardT{arena, n})
+		guardMu.Unlock()
+	}
 	switch parts[0] {
 	case "z":
 	case "c":
